@@ -166,7 +166,8 @@ def norm_classes(f):
     with np.errstate(all="ignore"):
         nrm = np.linalg.norm(mc.flat_cells(f.array), axis=-1)
     for v in nrm:
-        out.append("zero" if v == 0 else ("tiny" if v < 0.5e-8 else ("big" if v > 2e-8 else "band")))
+        # the property's threshold is the absolute 1e-8 on the LENGTH; only a hair around it is left unjudged (rounding of the norm)
+        out.append("zero" if v == 0 else ("tiny" if v < 0.999e-8 else ("big" if v > 1.001e-8 else "band")))
     return out
 
 
@@ -250,9 +251,13 @@ def gen_trace(df, rnd, tid, scratch):
         arr = np.zeros(tuple(m["n"]) + (nv,))
         flat = arr.reshape((-1, nv))
         for k in range(ncell):
-            cls = rnd.choice(["zero", "tiny", "big", "big"])
+            cls = rnd.choice(["zero", "tiny", "big", "big", "edge"])
             if cls == "tiny":
                 flat[k] = [rnd.choice([-2, -1, 1, 2]) * 1e-9 for _ in range(nv)]
+            elif cls == "edge":
+                # every component below the threshold, the length above it for three components (0.8e-8 * sqrt(3) = 1.39e-8),
+                # below it for one (seeded change C08-21 applied the threshold component by component)
+                flat[k] = [rnd.choice([-1, 1]) * 0.8e-8 for _ in range(nv)]
             elif cls == "big":
                 flat[k] = [rnd.choice([-3, -1, 1, 2]) * rnd.choice([1.0, 1e-6, 1e3]) for _ in range(nv)]
         f = df.Field(tm.mesh_of(m), nvdim=nv, value=flat.reshape(tuple(m["n"]) + (nv,)), valid=True)
